@@ -14,7 +14,8 @@ import time
 
 VERIF = os.path.dirname(os.path.dirname(os.path.abspath(__file__)))
 REPO = os.environ.get("VERIF_REPO", "/repo")
-CACHE = os.path.join(VERIF, ".cache")
+CACHE = os.environ.get("VERIF_CACHE") or os.path.join(VERIF, ".cache")
+OUT = os.environ.get("VERIF_OUT") or VERIF      # evidence/ and reports/ live here (the self-test redirects its mutant runs)
 MIRFACTS = os.path.join(VERIF, "engines/mirfacts/target/release/mirfacts")
 SPECSCAN_DIR = os.path.join(VERIF, "engines/specscan")
 SPECSCAN = os.path.join(SPECSCAN_DIR, "target/release/specscan")
@@ -314,7 +315,7 @@ class Check:
     def finish(self):
         known = [k for k in load_known() if k["property"] == self.pid]
         known_keys = {k["key"]: k for k in known if k.get("status") == "known"}
-        rdir = os.path.join(VERIF, "reports", self.pid)
+        rdir = os.path.join(OUT, "reports", self.pid)
         shutil.rmtree(rdir, ignore_errors=True)
         os.makedirs(rdir, exist_ok=True)
         nviol = 0
@@ -334,7 +335,7 @@ class Check:
                 print("KNOWN-FINDING: property=%s %s [%s] %s" % (self.pid, known_keys[f.key]["what"], f.rule, f.where))
             else:
                 nviol += 1
-                print("VIOLATION property=%s replay=%s" % (self.pid, os.path.relpath(path, VERIF)))
+                print("VIOLATION property=%s replay=%s" % (self.pid, os.path.relpath(path, OUT)))
                 print("  rule %s  at %s\n  key: %s\n  %s" % (f.rule, f.where or "-", f.key, f.msg))
         obligations = sum(r.get("obligations", r["instances"]) for r in self.rules)
         discharged = obligations - len(seen)
@@ -362,8 +363,8 @@ class Check:
             "violations": nviol,
         }
         ev["coverage"].update(self.info)
-        os.makedirs(os.path.join(VERIF, "evidence"), exist_ok=True)
-        with open(os.path.join(VERIF, "evidence", self.pid + ".json"), "w") as fh:
+        os.makedirs(os.path.join(OUT, "evidence"), exist_ok=True)
+        with open(os.path.join(OUT, "evidence", self.pid + ".json"), "w") as fh:
             json.dump(ev, fh, indent=1)
         print("%s: %d rules, %d obligations, %d violations, %d known findings, %.1fs" % (self.pid, len(self.rules), obligations, nviol, nknown, wall))
         return 1 if nviol else 0
